@@ -82,13 +82,14 @@ class QMock:
         return list(self._seq_), set(self._set_)
 
 
-def qset_cases():
-    for n in range(0, 4):
-        for seq in itertools.permutations(UNIVERSE[:3], n):
+def qset_cases(deep=False):
+    k = 4 if deep else 3
+    for n in range(0, k + 1):
+        for seq in itertools.permutations(UNIVERSE[:k], n):
             yield list(seq)
 
 
-def fold_qset(m: Model):
+def fold_qset(m: Model, deep=False):
     """Yield (ok, method, case, detail) for qset.insert / __delitem__ / __setitem__ (index and slice) / clear / reverse / sort"""
     cd = m.clsdef(ClassRef(HYB, 'qset'))
     fns = {st.name: st for st in cd.body if isinstance(st, ast.FunctionDef)}
@@ -139,7 +140,7 @@ def fold_qset(m: Model):
         if len(set(lst)) != len(lst):
             raise DupErr()
         return lst
-    for seq in qset_cases():
+    for seq in qset_cases(deep):
         n = len(seq)
         for v in UNIVERSE:
             for i in range(-n - 1, n + 2):
@@ -181,7 +182,7 @@ class Link:
         self.value, self.prev, self.next = v, None, None
 
 
-def fold_linqset_setitem(m: Model):
+def fold_linqset_setitem(m: Model, deep=False):
     """linqset.__setitem__ folded: after the in-place rewrite by linkseq.__setitem__ (also folded),
     the table must map exactly the chain's values to their links."""
     lq = {st.name: st for st in m.clsdef(ClassRef(LNK, 'linqset')).body if isinstance(st, ast.FunctionDef)}
@@ -196,6 +197,8 @@ def fold_linqset_setitem(m: Model):
     it = _interp(m, 'tools/linked.py linqset.__setitem__')
     for n in range(1, 5):
         seq = list(UNIVERSE[:n])
+        if n == 4 and not deep:
+            pass
         targets = [(i, None) for i in range(-n, n)] + [(slice(0, 2), 2), (slice(1, 3), None), (slice(None, None, 2), None), (slice(0, n), None)]
         for idx, _ in targets:
             if isinstance(idx, slice):
